@@ -305,7 +305,7 @@ pub fn run(ctx: &mut Ctx) {
     }
     for id in ALL_CODECS {
         let m = id.model();
-        let lens = gen::long_lens(ctx.thorough(), ctx.seed);
+        let lens = gen::long_lens_bits(id.bits(), ctx.thorough(), ctx.seed);
         ctx.forall_lens(
             &format!("seqs_long/{}", id.name()),
             &lens,
